@@ -85,7 +85,8 @@ def loc_of(it: Interp, ev: Event) -> str:
 
 def check_algebra(run: Run, rule: str, it: Interp, key: str, what: str, got: Term, ref: sp.Expr,
                   atom_of: Callable[[Term], Optional[sp.Expr]], loc: str = "", positive: bool = False,
-                  trig: bool = False, prep: Optional[Callable[[sp.Expr], sp.Expr]] = None) -> Optional[bool]:
+                  trig: bool = False, prep: Optional[Callable[[sp.Expr], sp.Expr]] = None,
+                  strict_atoms: bool = True) -> Optional[bool]:
     tr = S.Translator(atom_of, positive)
     try:
         g = tr.tr(got)
@@ -97,6 +98,10 @@ def check_algebra(run: Run, rule: str, it: Interp, key: str, what: str, got: Ter
         ok, how = S.decide_equal(g, ref, trig=trig)
     if ok is True:
         return run.ob(rule, short(it.fi.qual), key, True, what, f"normal forms equal ({how})", loc=loc)
+    if ok is False and strict_atoms and tr.atoms:
+        return run.ob(rule, short(it.fi.qual), key, None, what,
+                      f"differs from the reference but involves constructs without a known role: {sorted(tr.atoms)[:4]}; "
+                      f"code {sp.sstr(g)[:160]}", loc=loc)
     if ok is False:
         return run.ob(rule, short(it.fi.qual), key, False, what,
                       f"code computes {sp.sstr(g)[:300]}; reference {sp.sstr(ref)[:300]}", witness=how, loc=loc)
@@ -112,3 +117,24 @@ def enum_members(pkg: Package, clsqual: str) -> List[str]:
 
 def is_self_attr(t: Term, name: Optional[str] = None, selfname: str = "self") -> bool:
     return t[0] == "attr" and t[1] == ("sym", selfname) and (name is None or t[2] == name)
+
+
+ELEMENTWISE_FUNCS = {"numpy.sqrt", "numpy.square", "numpy.abs", "numpy.exp", "numpy.log", "numpy.cos", "numpy.sin",
+                     "numpy.conj", "numpy.real", "numpy.power"}
+
+
+def push_sub(t: Term) -> Term:
+    """Distribute constant subscripts over element-wise arithmetic: (a / b)[k] -> a[k] / b[k]."""
+    def fn(x: Term):
+        if x[0] == "sub" and (is_const(x[2]) or x[2][0] == "slice"):
+            b = x[1]
+            if b[0] == "bin" and b[1] in ("+", "-", "*", "/", "**"):
+                return ("bin", b[1], fn(("sub", b[2], x[2])) or ("sub", b[2], x[2]), fn(("sub", b[3], x[2])) or ("sub", b[3], x[2]))
+            if b[0] == "un" and b[1] in ("-", "+"):
+                return ("un", b[1], fn(("sub", b[2], x[2])) or ("sub", b[2], x[2]))
+            if b[0] == "const" and isinstance(b[1], (int, float, complex)):
+                return b
+            if b[0] == "call" and b[1] in ELEMENTWISE_FUNCS and not b[3]:
+                return ("call", b[1], tuple(fn(("sub", a, x[2])) or ("sub", a, x[2]) for a in b[2]), ())
+        return None
+    return subst(t, fn)
